@@ -745,7 +745,9 @@ def _make_case(rng, tool, computer, pre, post, syntax, variant, repeat=False, st
             # row); with Standardize a zero-frame utterance leaves the pipeline undefined -> not enumerated
             for u in utts:
                 if u["n"] < 700:
-                    u["n"] = int(rng.integers(700, 2401)) if computer is not None else max(u["n"], 2)
+                    # (no computer + Stack(3) + Standardize on a 2-sample signal is a zero-row Standardize as well)
+                    long = computer is not None or _has(POSTS[post], "standardize")
+                    u["n"] = int(rng.integers(700, 2401)) if long else max(u["n"], 2)
     if variant == "gap" and computer is not None and not (tool == "torch" and _has(POSTS[post], "standardize")):
         # frame shift larger than the frame: L//2+1 <= n < shift - shift//2 samples are enough for the "too
         # short" test of the computers to pass and still give (n + shift//2)//shift = 0 frames
